@@ -50,7 +50,8 @@ CHECKS = {
           'the result of B alone; after a definition attribute (a, offset, stack, plyt, Nxx, r) is changed between two calls the second result equals that of a '
           'fresh object with the new value; caller arrays are read-only in the executor (a write is a frame violation); Panel.lb/freq are executed with the matrix '
           'methods replaced by contracts that tag each matrix with the definition it was computed from, so the eigenproblem handed to the solver is proved '
-          'to be that of the current definition in every tested history.'),
+          'to be that of the current definition in every tested history.  ConeCyl (calc_k0, calc_fext, _calc_linear_matrices, calc_kT, calc_fint) is put through '
+          'the same three clauses with kernel stubs that carry their arguments (attributes r2, H, alphadeg, plyt, Fc, P).'),
     design_ref='DESIGN.md section 4 (C20)',
     note=('histories of length <= 3 over the listed methods (bounded in length, symbolic in all data); kernels/field functions assumed pure; thread-count independence of the '
           'compiled prange loops, PanelAssembly/StiffPanelBay/ConeCyl histories and plotting are not yet covered; 8 known findings (cached plyts), 1 fixed defect'),
